@@ -27,7 +27,79 @@ import (
 // and every other condition are nondeterministic. Every path must yield the same
 // net delta; loop bodies must yield 0; root emitters must yield 0.
 
-type delta struct{ brace, paren int }
+// delta is the abstract state: net braces and parens emitted so far, the known values of the function's boolean flag
+// locals (two bits each: 0 unknown, 1 false, 2 true) and, at a return, the constant boolean the function returns
+// (0 none/unknown, 1 false, 2 true). A flag is a bool local assigned from constants or from the boolean result of an
+// emitting helper: `guarded := false; if c { P("if … {"); guarded = true } … if guarded { P("}") }` and
+// `guarded := g.openGuard(…)` are followed exactly instead of treating `if guarded` as a free choice.
+type delta struct {
+	brace, paren int
+	fl           uint32
+	ret          uint8
+}
+
+func (d delta) flag(i int) uint32 { return (d.fl >> uint(2*i)) & 3 }
+func (d delta) withFlag(i int, v uint32) delta {
+	d.fl = d.fl&^(3<<uint(2*i)) | v<<uint(2*i)
+	return d
+}
+
+func sortedKeys(in dset) []delta {
+	var ks []delta
+	for k := range in {
+		ks = append(ks, k)
+	}
+	sort.Slice(ks, func(i, j int) bool {
+		a, b := ks[i], ks[j]
+		if a.brace != b.brace {
+			return a.brace < b.brace
+		}
+		if a.paren != b.paren {
+			return a.paren < b.paren
+		}
+		if a.ret != b.ret {
+			return a.ret < b.ret
+		}
+		return a.fl < b.fl
+	})
+	return ks
+}
+
+// deltasOf: the distinct brace/paren deltas of a summary, whatever is returned with them.
+func deltasOf(in dset) []delta {
+	seen := map[delta]bool{}
+	var out []delta
+	for _, k := range sortedKeys(in) {
+		d := delta{brace: k.brace, paren: k.paren}
+		if !seen[d] {
+			seen[d] = true
+			out = append(out, d)
+		}
+	}
+	return out
+}
+
+func setFlag(in dset, i int, v uint32) dset {
+	out := dset{}
+	for k, p := range in {
+		out.add(k.withFlag(i, v), p)
+	}
+	return out
+}
+
+func groupByFlags(in dset) ([]uint32, map[uint32]dset) {
+	g := map[uint32]dset{}
+	var ks []uint32
+	for k, p := range in {
+		if g[k.fl] == nil {
+			g[k.fl] = dset{}
+			ks = append(ks, k.fl)
+		}
+		g[k.fl][k] = p
+	}
+	sort.Slice(ks, func(i, j int) bool { return ks[i] < ks[j] })
+	return ks, g
+}
 
 type pathInfo struct {
 	atoms string
@@ -252,34 +324,53 @@ func RunBrace(c *core.Ctx) {
 		for _, u := range bf.loopBad {
 			c.Fail("T.brace", name+" loop", u, pos, src)
 		}
-		if len(bf.summary) == 1 {
-			var d delta
-			for k := range bf.summary {
-				d = k
+		// per returned boolean (helpers that report whether they opened a block), every path must emit the same
+		byRet := map[uint8][]delta{}
+		agree := len(bf.summary) > 0
+		for _, k := range sortedKeys(bf.summary) {
+			d := delta{brace: k.brace, paren: k.paren}
+			if l := byRet[k.ret]; len(l) == 0 || l[len(l)-1] != d {
+				byRet[k.ret] = append(byRet[k.ret], d)
 			}
-			c.Ok("T.brace", name+" paths agree", fmt.Sprintf("every path emits net braces %+d, parens %+d", d.brace, d.paren), pos, src)
+		}
+		for _, l := range byRet {
+			agree = agree && len(l) == 1
+		}
+		if _, unknownRet := byRet[0]; unknownRet && len(byRet) > 1 {
+			// some path returns a value the engine does not know: callers could not tell the paths apart
+			agree = agree && len(deltasOf(bf.summary)) == 1
+		}
+		if agree {
+			ds := deltasOf(bf.summary)
+			d := ds[0]
+			if len(ds) == 1 {
+				c.Ok("T.brace", name+" paths agree", fmt.Sprintf("every path emits net braces %+d, parens %+d", d.brace, d.paren), pos, src)
+			} else {
+				c.Ok("T.brace", name+" paths agree", fmt.Sprintf("every path returning true emits net braces %+d, parens %+d; every path returning false emits %+d, %+d",
+					byRet[2][0].brace, byRet[2][0].paren, byRet[1][0].brace, byRet[1][0].paren), pos, src)
+			}
 			isRoot := !called[bf.obj]
 			if isRoot {
+				for _, x := range ds {
+					if x.brace != 0 || x.paren != 0 {
+						d = x
+					}
+				}
 				c.Check(d.brace == 0 && d.paren == 0, "T.brace", name+" root balanced", "root emitter is balanced",
 					fmt.Sprintf("root emitter leaves braces %+d, parens %+d open", d.brace, d.paren), pos, src)
 			}
 		} else if len(bf.summary) == 0 {
 			c.Ok("T.brace", name+" paths agree", "no returning path (always panics)", pos, src)
 		} else {
-			var ks []delta
-			for k := range bf.summary {
-				ks = append(ks, k)
-			}
-			sort.Slice(ks, func(i, j int) bool {
-				if ks[i].brace != ks[j].brace {
-					return ks[i].brace < ks[j].brace
-				}
-				return ks[i].paren < ks[j].paren
-			})
+			ks := sortedKeys(bf.summary)
 			var parts []string
 			for _, k := range ks {
 				pi := bf.summary[k]
-				parts = append(parts, fmt.Sprintf("braces %+d parens %+d on path {%s} via [%s]", k.brace, k.paren, pi.atoms, strings.Join(lastN(pi.trail, 6), " > ")))
+				rv := ""
+				if k.ret != 0 {
+					rv = fmt.Sprintf(" returning %v", k.ret == 2)
+				}
+				parts = append(parts, fmt.Sprintf("braces %+d parens %+d%s on path {%s} via [%s]", k.brace, k.paren, rv, pi.atoms, strings.Join(lastN(pi.trail, 6), " > ")))
 			}
 			c.Fail("T.brace", name+" paths agree", "emitted code is not brace-balanced on every template path: "+strings.Join(parts, " ; "), pos, src)
 		}
@@ -371,6 +462,7 @@ func (e *braceEngine) analyze(bf *braceFn) {
 		}
 		return true
 	})
+	flags := e.flagVars(bf)
 	stable := func(x ast.Expr) bool {
 		ok := true
 		ast.Inspect(x, func(n ast.Node) bool {
@@ -378,7 +470,7 @@ func (e *braceEngine) analyze(bf *braceFn) {
 			case *ast.Ident:
 				o := info.ObjectOf(t)
 				if v, isVar := o.(*types.Var); isVar && !v.IsField() {
-					if assignCount[o] > 1 {
+					if _, isFlag := flags[o]; isFlag || assignCount[o] > 1 {
 						ok = false
 					}
 				}
@@ -443,7 +535,7 @@ func (e *braceEngine) analyze(bf *braceFn) {
 	bf.counts = map[delta]int{}
 	total := 1 << uint(len(at.names))
 	for mask := 0; mask < total; mask++ {
-		w := &bwalker{e: e, bf: bf, at: at, mask: mask, info: info, stable: stable}
+		w := &bwalker{e: e, bf: bf, at: at, mask: mask, info: info, stable: stable, flags: flags}
 		var names []string
 		for i, n := range at.names {
 			v := "F"
@@ -456,15 +548,124 @@ func (e *braceEngine) analyze(bf *braceFn) {
 		start := dset{delta{}: pathInfo{atoms: w.atomsDesc}}
 		out := w.stmts(bf.decl.Body.List, start)
 		for k, p := range out {
+			k.fl, k.ret = 0, 0
 			bf.summary.add(k, p)
 			bf.counts[k]++
 		}
 		for k, p := range w.returns {
+			k.fl = 0
 			bf.summary.add(k, p)
 			bf.counts[k]++
 		}
 	}
 	bf.state = 2
+}
+
+// boolResult: the function has exactly one result, of type bool.
+func boolResult(f *types.Func) bool {
+	sig, ok := f.Type().(*types.Signature)
+	return ok && sig.Results().Len() == 1 && types.Identical(sig.Results().At(0).Type(), types.Typ[types.Bool])
+}
+
+// emittingBoolCall: a call of an emitting function of the template packages whose single result is a bool.
+func (e *braceEngine) emittingBoolCall(info *types.Info, x ast.Expr) (*braceFn, *ast.CallExpr) {
+	call, ok := ast.Unparen(x).(*ast.CallExpr)
+	if !ok {
+		return nil, nil
+	}
+	f, ok := core.CalleeObj(info, call).(*types.Func)
+	if !ok || e.fns[f] == nil || !e.fns[f].emits || !boolResult(f) {
+		return nil, nil
+	}
+	return e.fns[f], call
+}
+
+// flagVars finds the boolean flag locals of a function: bool variables declared in its body that are, at least once,
+// given a constant or the result of an emitting helper, are never assigned inside a function literal and never have
+// their address taken. (Any other assignment to one makes its value unknown from there on.)
+func (e *braceEngine) flagVars(bf *braceFn) map[types.Object]int {
+	info := bf.pkg.TypesInfo
+	cand := map[types.Object]bool{}
+	bad := map[types.Object]bool{}
+	local := func(x ast.Expr) types.Object {
+		id, ok := x.(*ast.Ident)
+		if !ok {
+			return nil
+		}
+		v, ok := info.ObjectOf(id).(*types.Var)
+		if !ok || v.IsField() || !types.Identical(v.Type(), types.Typ[types.Bool]) {
+			return nil
+		}
+		if v.Pos() < bf.decl.Body.Pos() || v.Pos() > bf.decl.Body.End() {
+			return nil // parameters and results are not flags
+		}
+		return v
+	}
+	isConst := func(x ast.Expr) bool {
+		tv, ok := info.Types[x]
+		return ok && tv.Value != nil && tv.Value.Kind() == constant.Bool
+	}
+	var walk func(n ast.Node, inLit bool)
+	walk = func(n ast.Node, inLit bool) {
+		ast.Inspect(n, func(x ast.Node) bool {
+			switch t := x.(type) {
+			case *ast.FuncLit:
+				if !inLit {
+					walk(t.Body, true)
+					return false
+				}
+			case *ast.AssignStmt:
+				for i, l := range t.Lhs {
+					o := local(l)
+					if o == nil {
+						continue
+					}
+					if inLit {
+						bad[o] = true
+						continue
+					}
+					if len(t.Lhs) == len(t.Rhs) {
+						if cf, _ := e.emittingBoolCall(info, t.Rhs[i]); isConst(t.Rhs[i]) || cf != nil {
+							cand[o] = true
+						}
+					}
+				}
+			case *ast.ValueSpec:
+				for i, nm := range t.Names {
+					o := local(nm)
+					if o == nil || inLit {
+						continue
+					}
+					if len(t.Values) == 0 || (i < len(t.Values) && len(t.Values) == len(t.Names) && isConst(t.Values[i])) {
+						cand[o] = true
+					}
+				}
+			case *ast.UnaryExpr:
+				if t.Op == token.AND {
+					if o := local(ast.Unparen(t.X)); o != nil {
+						bad[o] = true
+					}
+				}
+			}
+			return true
+		})
+	}
+	walk(bf.decl.Body, false)
+	var objs []types.Object
+	for o := range cand {
+		if !bad[o] {
+			objs = append(objs, o)
+		}
+	}
+	sort.Slice(objs, func(i, j int) bool { return objs[i].Pos() < objs[j].Pos() })
+	if len(objs) > 12 {
+		objs = objs[:12]
+	}
+	out := map[types.Object]int{}
+	for i, o := range objs {
+		out[o] = i
+	}
+	return out
 }
 
 type bframe struct {
@@ -474,6 +675,8 @@ type bframe struct {
 }
 
 type bwalker struct {
+	flags        map[types.Object]int // boolean flag locals -> index
+	fl           uint32               // flag values of the group of states a condition is being evaluated for
 	forced       map[string]int // condition text -> value, while a loop body is analysed for "every iteration but the last" / "the last"
 	e            *braceEngine
 	bf           *braceFn
@@ -504,6 +707,17 @@ func (w *bwalker) cond(x ast.Expr) int {
 			return 1
 		}
 		return 0
+	}
+	if id, ok := x.(*ast.Ident); ok {
+		if i, isFlag := w.flags[w.info.ObjectOf(id)]; isFlag {
+			switch (w.fl >> uint(2*i)) & 3 {
+			case 1:
+				return 0
+			case 2:
+				return 1
+			}
+			return -1
+		}
 	}
 	switch t := x.(type) {
 	case *ast.BinaryExpr:
@@ -552,7 +766,7 @@ func (w *bwalker) addAll(in dset, d delta, label string) dset {
 		if label != "" {
 			np.trail = append(append([]string{}, p.trail...), label)
 		}
-		out.add(delta{k.brace + d.brace, k.paren + d.paren}, np)
+		out.add(delta{k.brace + d.brace, k.paren + d.paren, k.fl, k.ret}, np)
 	}
 	return out
 }
@@ -594,7 +808,7 @@ func (w *bwalker) calls(n ast.Node, in dset) dset {
 					return true
 				})
 				if emits {
-					sub := &bwalker{e: w.e, bf: w.bf, at: w.at, mask: w.mask, info: w.info, stable: w.stable, atomsDesc: w.atomsDesc}
+					sub := &bwalker{e: w.e, bf: w.bf, at: w.at, mask: w.mask, info: w.info, stable: w.stable, atomsDesc: w.atomsDesc, flags: w.flags}
 					res := sub.stmts(t.Body.List, dset{delta{}: pathInfo{atoms: w.atomsDesc}})
 					for k, p := range union(res, sub.returns) {
 						if k.brace != 0 || k.paren != 0 {
@@ -634,10 +848,20 @@ func (w *bwalker) calls(n ast.Node, in dset) dset {
 				} else if f, ok := o.(*types.Func); ok {
 					if cf := w.e.fns[f]; cf != nil && cf.emits {
 						w.e.analyze(cf)
-						// a callee whose paths disagree is reported at the callee; callers continue with its most frequent delta
+						// a callee whose paths disagree is reported at the callee; callers continue with its most frequent delta.
+						// A bool-returning helper may legitimately emit differently per returned value: a caller that does not
+						// keep the result in a flag (see assign) goes on with every delta the helper can leave.
+						if boolResult(f) && len(deltasOf(cf.summary)) > 1 {
+							out := dset{}
+							for _, d := range deltasOf(cf.summary) {
+								out = union(out, w.addAll(cur, d, fmt.Sprintf("%s()%+d", f.Name(), d.brace)))
+							}
+							cur = out
+							return false
+						}
 						var best delta
 						bestN := -1
-						for k := range cf.summary {
+						for _, k := range sortedKeys(cf.summary) {
 							if n := cf.counts[k]; n > bestN || (n == bestN && (k.brace*k.brace+k.paren*k.paren) < (best.brace*best.brace+best.paren*best.paren)) {
 								best, bestN = k, n
 							}
@@ -832,6 +1056,114 @@ func appendUniq(s []string, v string) []string {
 	return append(s, v)
 }
 
+// forget makes every flag assigned somewhere in the node unknown (a loop body may have run any number of times).
+func (w *bwalker) forget(n ast.Node, in dset) dset {
+	cur := in
+	if len(w.flags) == 0 {
+		return cur
+	}
+	ast.Inspect(n, func(x ast.Node) bool {
+		if as, ok := x.(*ast.AssignStmt); ok {
+			for _, l := range as.Lhs {
+				if id, ok := l.(*ast.Ident); ok {
+					if i, isFlag := w.flags[w.info.ObjectOf(id)]; isFlag {
+						cur = setFlag(cur, i, 0)
+					}
+				}
+			}
+		}
+		return true
+	})
+	return cur
+}
+
+// assign applies an assignment or variable declaration: the calls in it take effect, and a flag on the left takes the
+// constant, the result of the emitting helper, or becomes unknown.
+func (w *bwalker) assign(lhs, rhs []ast.Expr, node ast.Node, in dset) dset {
+	flagOf := func(x ast.Expr) (int, bool) {
+		id, ok := x.(*ast.Ident)
+		if !ok {
+			return 0, false
+		}
+		i, ok := w.flags[w.info.ObjectOf(id)]
+		return i, ok
+	}
+	any := false
+	for _, l := range lhs {
+		if _, ok := flagOf(l); ok {
+			any = true
+		}
+	}
+	if !any {
+		return w.calls(node, in)
+	}
+	if len(rhs) == 0 {
+		// var f bool
+		cur := in
+		for _, l := range lhs {
+			if i, ok := flagOf(l); ok {
+				cur = setFlag(cur, i, 1)
+			}
+		}
+		return cur
+	}
+	if len(lhs) != len(rhs) {
+		cur := w.calls(node, in)
+		for _, l := range lhs {
+			if i, ok := flagOf(l); ok {
+				cur = setFlag(cur, i, 0)
+			}
+		}
+		return cur
+	}
+	// Go evaluates the right-hand operands in order, then assigns
+	cur := in
+	type pend struct {
+		i int
+		v uint32
+	}
+	var sets []pend
+	for k, r := range rhs {
+		i, isFlag := flagOf(lhs[k])
+		if isFlag {
+			if cf, call := w.e.emittingBoolCall(w.info, r); cf != nil && len(lhs) == 1 {
+				for _, a := range call.Args {
+					cur = w.calls(a, cur)
+				}
+				cur = w.calls(call.Fun, cur)
+				w.e.analyze(cf)
+				out := dset{}
+				for _, d := range sortedKeys(cf.summary) {
+					lbl := ""
+					if d.brace != 0 || d.paren != 0 {
+						lbl = fmt.Sprintf("%s()%+d", cf.obj.Name(), d.brace)
+					}
+					out = union(out, setFlag(w.addAll(cur, d, lbl), i, uint32(d.ret)))
+				}
+				return out
+			}
+		}
+		cur = w.calls(r, cur)
+		if isFlag {
+			v := uint32(0)
+			if tv, ok := w.info.Types[r]; ok && tv.Value != nil && tv.Value.Kind() == constant.Bool {
+				v = 1
+				if constant.BoolVal(tv.Value) {
+					v = 2
+				}
+			}
+			sets = append(sets, pend{i, v})
+		}
+	}
+	for _, l := range lhs {
+		cur = w.calls(l, cur)
+	}
+	for _, s := range sets {
+		cur = setFlag(cur, s.i, s.v)
+	}
+	return cur
+}
+
 func (w *bwalker) stmts(list []ast.Stmt, in dset) dset {
 	cur := in
 	for _, s := range list {
@@ -854,7 +1186,23 @@ func (w *bwalker) stmt(s ast.Stmt, in dset) dset {
 			}
 		}
 		return w.calls(t, in)
-	case *ast.AssignStmt, *ast.DeclStmt, *ast.IncDecStmt, *ast.GoStmt, *ast.DeferStmt, *ast.SendStmt:
+	case *ast.AssignStmt:
+		return w.assign(t.Lhs, t.Rhs, t, in)
+	case *ast.DeclStmt:
+		cur := in
+		if gd, ok := t.Decl.(*ast.GenDecl); ok && gd.Tok == token.VAR {
+			for _, sp := range gd.Specs {
+				vs := sp.(*ast.ValueSpec)
+				var lhs []ast.Expr
+				for _, nm := range vs.Names {
+					lhs = append(lhs, nm)
+				}
+				cur = w.assign(lhs, vs.Values, vs, cur)
+			}
+			return cur
+		}
+		return w.calls(t, in)
+	case *ast.IncDecStmt, *ast.GoStmt, *ast.DeferStmt, *ast.SendStmt:
 		return w.calls(t, in)
 	case *ast.ReturnStmt:
 		out := w.calls(t, in)
@@ -862,6 +1210,18 @@ func (w *bwalker) stmt(s ast.Stmt, in dset) dset {
 			w.returns = dset{}
 		}
 		for k, p := range out {
+			// the constant (or known flag) a bool-returning emitter hands back is part of its summary
+			k.ret = 0
+			if len(t.Results) == 1 && boolResult(w.bf.obj) {
+				w.fl = k.fl
+				switch w.cond(t.Results[0]) {
+				case 0:
+					k.ret = 1
+				case 1:
+					k.ret = 2
+				}
+				w.fl = 0
+			}
 			w.returns.add(k, p)
 		}
 		return dset{}
@@ -873,19 +1233,25 @@ func (w *bwalker) stmt(s ast.Stmt, in dset) dset {
 			cur = w.stmt(t.Init, cur)
 		}
 		cur = w.calls(t.Cond, cur)
-		v := w.cond(t.Cond)
-		var thenOut, elseOut dset
-		if v != 0 {
-			thenOut = w.stmts(t.Body.List, cur)
-		}
-		if v != 1 {
-			if t.Else != nil {
-				elseOut = w.stmt(t.Else, cur)
-			} else {
-				elseOut = cur
+		out := dset{}
+		ks, groups := groupByFlags(cur)
+		for _, fl := range ks {
+			g := groups[fl]
+			w.fl = fl
+			v := w.cond(t.Cond)
+			w.fl = 0
+			if v != 0 {
+				out = union(out, w.stmts(t.Body.List, g))
+			}
+			if v != 1 {
+				if t.Else != nil {
+					out = union(out, w.stmt(t.Else, g))
+				} else {
+					out = union(out, g)
+				}
 			}
 		}
-		return union(thenOut, elseOut)
+		return out
 	case *ast.SwitchStmt, *ast.TypeSwitchStmt:
 		cur := in
 		var body *ast.BlockStmt
@@ -974,8 +1340,9 @@ func (w *bwalker) stmt(s ast.Stmt, in dset) dset {
 				}
 				out := dset{}
 				if !w.nonEmpty(rs.X, 0) {
-					out = union(out, cur)
+					out = union(out, w.forget(body, cur))
 				}
+				cur = w.forget(body, cur)
 				for k := range run(lastVal) {
 					out = union(out, w.addAll(cur, k, "last iteration"))
 				}
